@@ -1,0 +1,33 @@
+//go:build verif
+
+package verify
+
+// Contracts for govc (contract-based deductive verification, see /verif/DESIGN.md).
+// This file contains comments only and is compiled only with the build tag `verif`.
+
+// C13: gUnmetReq(v) / gUnmetRes(v) = number of unmet expectations a verifier (leaf or composite) would report now,
+// i.e. recorded since its last reset. Verify* reports exactly that many errors (flattened); Reset* brings it to zero
+// and can only lower (never raise) the count of any other verifier.
+
+//@ ghost field RequestVerifier.gUnmetReq int
+//@ ghost field ResponseVerifier.gUnmetRes int
+
+//@ iface RequestVerifier.VerifyRequests
+//@   ensures self.gUnmetReq >= 0
+//@   ensures (result == nil) == (self.gUnmetReq == 0)
+//@   ensures result != nil ==> errCount(result) == self.gUnmetReq
+//@   ensures typeis(result, *martian.MultiError) ==> merrIdle(as(result, *martian.MultiError)) && as(result, *martian.MultiError).gShared
+//@ iface RequestVerifier.ResetRequestVerifications
+//@   modifies RequestVerifier.gUnmetReq
+//@   ensures self.gUnmetReq == 0
+//@   ensures forall o *int :: o.gUnmetReq == old(o.gUnmetReq) || o.gUnmetReq == 0
+
+//@ iface ResponseVerifier.VerifyResponses
+//@   ensures self.gUnmetRes >= 0
+//@   ensures (result == nil) == (self.gUnmetRes == 0)
+//@   ensures result != nil ==> errCount(result) == self.gUnmetRes
+//@   ensures typeis(result, *martian.MultiError) ==> merrIdle(as(result, *martian.MultiError)) && as(result, *martian.MultiError).gShared
+//@ iface ResponseVerifier.ResetResponseVerifications
+//@   modifies ResponseVerifier.gUnmetRes
+//@   ensures self.gUnmetRes == 0
+//@   ensures forall o *int :: o.gUnmetRes == old(o.gUnmetRes) || o.gUnmetRes == 0
